@@ -929,7 +929,7 @@ static int check_C_ieee754_compliance(void)
    if (check_double_mem_layout() < 0)
       got_error = 1;
 
-   if (check_match_encoding2decoding() < 0);
+   if (check_match_encoding2decoding() < 0)
       got_error = 1;
 
    if (got_error) return 0;
